@@ -115,7 +115,14 @@ pub fn gen_prog(rng: &mut Rng) -> Vec<u8> {
       _ => { let k = 1 + rng.below(2) as u8; p.extend_from_slice(&[*rng.pick(&[0x20u8, 0x28, 0x30, 0x38, 0x18]), k]); for _ in 0..k { p.push(0x00); } } // JR cc over NOPs
     }
   }
-  if waker && rng.chance(2, 3) { p.extend_from_slice(&[0x76, 0x18, 0xfd]); }                           // L: HALT ; JR L
+  if ie & 0x1f != 0 && rng.chance(1, 6) {
+    // a CANCELLED dispatch: SP = 0, so the push of PC's high byte (0xC0) lands on IE and removes the request's enable;
+    // PC goes to 0x0000, nothing is acknowledged, five cycles are charged.  The NOP sled below 0x40 runs into the
+    // handler, whose RETI returns to the interrupted PC (low byte from 0xFFFE, high byte = IE as written).
+    let bit = 1u8 << (ie & 0x1f).trailing_zeros();
+    p.extend_from_slice(&[0xf3, 0x31, 0x00, 0x00, 0x3e, bit, 0xe0, 0x0f, 0xfb, 0x00, 0x00]);            // DI ; LD SP,0 ; IF=bit ; EI ; NOP ; NOP
+  }
+  if waker && ie & 0x1f != 0 && rng.chance(2, 3) { p.extend_from_slice(&[0x76, 0x18, 0xfd]); }       // L: HALT ; JR L
   else if rng.chance(1, 4) { p.extend_from_slice(&[0x10, 0x00, 0x18, 0xfc]); }                         // L: STOP ; JR L
   else { p.extend_from_slice(&[0x00, 0x18, 0xfd]); }                                                   // L: NOP ; JR L
   p
